@@ -48,7 +48,7 @@ int ys_compiler_add(ys_compiler* c, int how, const char* src, size_t len, const 
 /* accumulated diagnostics: "E <code> <line> <msg>\n" / "W 0 <line> <msg>\n" */
 const char* ys_compiler_diag(ys_compiler* c);
 int ys_compiler_error_callbacks(ys_compiler* c);   /* number of ERROR-level callbacks */
-int ys_compiler_bad_callbacks(ys_compiler* c);     /* ERROR callbacks with empty message or line < 1 */
+int ys_compiler_bad_callbacks(ys_compiler* c);     /* ERROR callbacks with empty message or line < 0 */
 int ys_compiler_first_error(ys_compiler* c);       /* first error code seen, 0 if none */
 int ys_compiler_get_rules(ys_compiler* c, ys_rules** out);
 /* "size/used" of every arena buffer, space separated, and number of growths */
